@@ -173,6 +173,18 @@ def gen_texts(seed, tier):
     for m in ['lower', 'upper', 'strip', 'startswith', 'endswith', 'replace', 'memo', 'item', 'amount', 'description']:
         for r in ['description', 'field', 'rows[0]', 'txn']:
             texts += [f'({r}.{m}() or 1) and {m}', f'({r}.{m} or 1) and {m}', f'[{r}.{m}, {m}][1]']
+    # names and spellings that could reach the process environment / interpreter state (canary values are planted by the runner)
+    for k in ['VERIF_CANARY_ENV', 'VERIF_CANARY_NUM', 'verif_canary_lower', 'LARGE_PURCHASE', 'PATH', 'HOME', 'PYTHONPATH', 'USER', 'PWD']:
+        texts += [k, k.lower(), k.upper(), f'{k} > 1', f'trim({k})', f'"%s" % {k}', f'amount > {k}', f'[{k} for r in rows]',
+                  f'env.{k}', f'environ.{k}', f'os.environ["{k}"]', f'environ["{k}"]', f'env["{k}"]', f'getenv("{k}")', f'env("{k}")',
+                  f'"${k}"', f'"${{{k}}}"', f'"%({k})s"', f'"{{{k}}}"', f'expandvars("${k}")', f'contains("${k}")', f'txn.{k}',
+                  f'field.{k}', f'rows[0].{k}', f'threshold.{k}', f'exists({k})', f'({k} := {k})', f'{k} or 1', f'{k}.lower()']
+    # every aggregate / statistic of the view language on several payments (so that it really computes)
+    for f in ['sum', 'avg', 'count', 'min', 'max', 'stddev', 'median', 'mean', 'variance', 'stdev', 'mode', 'abs', 'round', 'len', 'cv']:
+        for a in ['payments', 'by("month")', 'by("day")', 'by("week")', 'by("year")', 'sum(by("month"))', 'count(by("month"))',
+                  'avg(by("month"))', '[1.5, 2.5, 7]', 'payments, 1', '']:
+            texts += [f'{f}({a})', f'{f}({a}) > 1']
+    texts += ['cv', 'cv < 0.5', 'total', 'months', 'total / months', 'period("month")', 'period("year")', 'period("quarter")']
     # node kinds x positions, depth 2
     for s in NODE_SNIPPETS:
         for c in CONTEXTS:
@@ -226,6 +238,8 @@ def oracle(r):
     bad = []
     if r.get('events'):
         bad.append(('C03/audit-event', r['events'][:3]))
+    if r.get('canary'):
+        bad.append(('C03/reads-process-state-outside-the-frame', r['canary']))
     if r.get('state_leak'):
         bad.append(('C03/evaluation-state-leaks-between-evaluations', r['state_leak']))
     if r.get('wrote_output'):
